@@ -664,6 +664,16 @@ class Parser:
     def _raise_for_non_comparable_function(
         self, expr: Expression, token: Token
     ) -> None:
+        if not isinstance(
+            expr, (FilterExpressionLiteral, FilterQuery, FunctionExtension)
+        ):
+            # A comparable is a literal, a singular query or a function call.
+            # `!x`, comparisons and logical expressions are not.
+            raise JSONPathSyntaxError(
+                "expected a literal, a singular query or a function call",
+                token=token,
+            )
+
         if isinstance(expr, FilterQuery) and not expr.query.singular_query():
             raise JSONPathTypeError("non-singular query is not comparable", token=token)
 
